@@ -458,3 +458,7 @@ def expand(item, seed):
         return
     for sc in _expand0(item, seed):
         yield sc
+
+
+# round 7 summary for the evidence file
+RULE = RULE + "  Round 7: family 'big' - text of 65535 / 65536 / 65537 / 131072 bytes (thorough: 4 KiB ... 256 KiB multiples +-1) x filling {ASCII, 2-byte, 3-byte characters} x ending {complete, cut short inside a 2-/3-/4-byte sequence, stray continuation byte, complete 4-byte} x {one frame, cut in the middle, cut at 65536} x {recv, recv_data}; enableTrace on in 15 % of the seeded scenarios."
